@@ -81,7 +81,11 @@ def cases(draw):
         scheds = [draw(schedule()) for _ in range(3)]
     # the status report's clock: real, or owned by the harness so that minutes / hours / days of guessing time are reported
     clock = draw(st.sampled_from([None, None, 0.0, 45.0, 3700.0, 100000.0]))
-    return {'model': m, 'schedules': scheds, 'clock_step': clock}
+    case = {'model': m, 'schedules': scheds, 'clock_step': clock, 'stdin_isatty': draw(st.sampled_from([None, True, True, False]))}
+    if draw(st.integers(0, 2)) == 0:
+        case['sessions'] = draw(st.sampled_from(histories.SESSION_PAIRS))
+        case['neighbour_quits'] = [draw(st.integers(0, 12)) for _ in range(2)]
+    return case
 
 
 def prop(case, rec):
@@ -109,6 +113,8 @@ def prop(case, rec):
         cls.append('explicit_quit')
     if sm.get('interleaved_events'):
         cls.append('interleaved_request')
+    if sm.get('neighbour_runs'):
+        cls.append('neighbour_session_between_runs')
     if case.get('clock_step') and sm['status_requests']:
         cls.append('status_with_minutes_hours_days_elapsed')
     nontriv = bool(sm['thread_ended_by_stdin'] or sm['quits_inside_markov'] or sm['events_in_remainder'] or sm.get('interleaved_events'))
